@@ -208,6 +208,21 @@ func init() {
 		}
 		return dst
 	})
+	// vReadJSON(path, &v): plain encoding/json decoding of a file of the fs model
+	reg(hp+"vReadJSON", func(i *interpreter, fr *frame, args []value) value {
+		p := pathArg(args[0])
+		n := i.env.fsm().nodes[p]
+		if n == nil || n.dir {
+			return i.pathErr("open", p, "no such file or directory", true)
+		}
+		if n.data == nil {
+			return i.jsonErr("SyntaxError", "unexpected end of JSON input")
+		}
+		if n.gz != strings.HasSuffix(p, ".gz") {
+			return i.jsonErr("SyntaxError", "invalid character looking for beginning of value")
+		}
+		return i.jsonUnmarshal(fr, []value{n.data}, args[1])
+	})
 	// vJSONShape(path): keys, nesting and leaf kinds of a JSON document
 	reg(hp+"vJSONShape", func(i *interpreter, fr *frame, args []value) value {
 		n := i.env.fsm().nodes[pathArg(args[0])]
